@@ -337,3 +337,56 @@ Theorem C07_nbns_node_status_wellformed : forall c seq junk,
       (wf_dns_query (Some seq) [nb_label [42]] 33 1) true fr = true.
 Proof. exact nbns_node_status_wf. Qed.
 Print Assumptions C07_nbns_node_status_wellformed.
+
+(* ================================================================ *)
+(* DHCP client messages (DISCOVER, DECLINE, RELEASE): EncodeDHCP4 over an arbitrary previous buffer content *)
+From PV Require Import Proofs.SendDhcp.
+
+(* normal form: every byte of the 240-byte header is written, options, End, padding to the BOOTP minimum *)
+Theorem C07_encode_dhcp4_client : forall p ch ci xid opts,
+  mac_ok ch -> ip4_ok ci -> length xid = 4%nat ->
+  (300 <= length p)%nat -> (241 + length (append_options opts) <= length p)%nat ->
+  enc_dhcp4 p 1 (Some ch) ci ipv4zero (Some xid) false opts = Some (dhcp_client_nf ch ci xid (append_options opts)).
+Proof. exact enc_dhcp4_client. Qed.
+Print Assumptions C07_encode_dhcp4_client.
+
+(* the reference DHCP decoder reads back: BOOTREQUEST, Ethernet, xid, ciaddr, zero yiaddr/siaddr/giaddr, chaddr,
+   zero sname/file, exactly the options (codes other than 0, 1, 3, 33, 255; values up to 255 bytes), >= 300 bytes *)
+Theorem C07_dhcp_client_decodes_back : forall ch ci xid opts,
+  mac_ok ch -> ip4_ok ci -> length xid = 4%nat -> Forall opt_ok opts -> plain_opts opts ->
+  wf_dhcp_client ch ci (Some xid) opts (dhcp_client_nf ch ci xid (append_options opts)) = true.
+Proof. exact dhcp_client_nf_wf. Qed.
+Print Assumptions C07_dhcp_client_decodes_back.
+
+(* sendDeclineReleasePacket, full *)
+Theorem C07_decline_release_wellformed : forall c ch ci xid opts junk1 junk2,
+  mac_ok (host_mac c) -> ip4_ok (host_ip4 c) -> mac_ok (router_mac c) -> ip4_ok (router_ip4 c) ->
+  mac_ok ch -> ip4_ok ci -> length xid = 4%nat -> bytes_ok xid ->
+  Forall opt_ok opts -> plain_opts opts -> opts_bytes_ok opts -> (length (append_options opts) <= 1000)%nat ->
+  length junk1 = EthMaxSize -> length junk2 = EthMaxSize ->
+  exists fr, send_decline_release c (Some ch) ci xid opts junk1 junk2 = Ok [fr] /\
+    wf_udp4 (host_mac c) (router_mac c) (host_ip4 c) (router_ip4 c) 68 67
+      (wf_dhcp_client ch ci (Some xid) opts) false fr = true.
+Proof. exact decline_release_wf. Qed.
+Print Assumptions C07_decline_release_wellformed.
+
+(* SendDiscoverPacket, full (message built in place behind the headers; since fix 766f89c ciaddr is 0.0.0.0
+   unless the caller gives an IPv4 address, xid is the caller's or a random one) *)
+Theorem C07_discover_wellformed : forall c ch ci xid opts junk,
+  mac_ok (host_mac c) -> ip4_ok (host_ip4 c) -> mac_ok (router_mac c) -> ip4_ok (router_ip4 c) ->
+  mac_ok ch -> (ip4_ok ci \/ is4 ci = false) -> length xid = 4%nat -> bytes_ok xid ->
+  Forall opt_ok opts -> plain_opts opts -> opts_bytes_ok opts -> (length (append_options opts) <= 1000)%nat ->
+  length junk = EthMaxSize ->
+  exists fr, send_discover c (Some ch) ci xid opts junk = Ok [fr] /\
+    wf_udp4 (host_mac c) (router_mac c) (host_ip4 c) (router_ip4 c) 68 67
+      (wf_dhcp_client ch (if is4 ci then ci else [0;0;0;0]) (Some xid) opts) false fr = true.
+Proof. exact send_discover_wf. Qed.
+Print Assumptions C07_discover_wellformed.
+
+Example C07_client_opts_inhabited :
+  let discover := [(12, [104; 111; 115; 116]); (55, str_discover_prl); (53, [1])] in
+  let decline := [(61, [1;2;0;0;0;0;7]); (54, [192;168;0;11]); (56, [110;101;116]); (50, [192;168;0;60]); (53, [4])] in
+  Forall opt_ok discover /\ plain_opts discover /\ opts_bytes_ok discover /\
+  Forall opt_ok decline /\ plain_opts decline /\ opts_bytes_ok decline.
+Proof. exact client_opts_inhabited. Qed.
+Print Assumptions C07_client_opts_inhabited.
